@@ -3,7 +3,7 @@
 # Confirms a sub-agent's seeded change in its scratch worktree /tmp/wt-<ID>:
 #  1. tracked diff == seeded/patch.diff  2. existing suite passes with the change  3. demo fails with / passes without
 id=$1; demo=$2; crate=$3; shift 3
-wt=/tmp/wt-$id
+wt=${WTPREFIX:-/tmp/wt-}$id
 cd $wt || exit 2
 export CARGO_TARGET_DIR=$wt/target
 echo "== tracked diff vs patch.diff"
